@@ -102,6 +102,28 @@ theorem allTO_of_origins {src : Src} {st : DState} {t : RevTree} (hk : KeysNodup
   obtain ⟨o, ho⟩ := hall e h0
   exact ⟨o, trueOrder_sub hsub hk0 hk hcl0 hr0 ho ⟨e, h0, rfl⟩⟩
 
+/-- **one operation keeps `AllTO`**: the tree grows by the entries `l`, the store still reads what it read, and each
+    new entry denotes an array in the new state (what the operation's own theorem provides:
+    `C04b.updateObject_array_spec` for `update`, `C12b.snapshot_tree_spec` / `resolveAs_array_spec` for snapshots and
+    resolutions; a resolution marker reads as the empty full descriptor) -/
+theorem allTO_step {src : Src} {st st' : DState} {t t' : RevTree} {l : List RtEntry} (h : AllTO src st t)
+    (hext : t'.entries = t.entries ++ l) (hk : KeysNodup t.entries) (hk' : KeysNodup t'.entries)
+    (hcl : Closed t.entries) (hr : ∀ r x, readObject src st r = .ok x → readObject src st' r = .ok x)
+    (hnew : ∀ e ∈ l, ∃ o, TrueOrder src st' t' e.rev o) : AllTO src st' t' := by
+  intro e he
+  rw [hext] at he
+  rcases List.mem_append.mp he with h1 | h1
+  · obtain ⟨o, ho⟩ := h e h1
+    exact ⟨o, trueOrder_sub (fun x hx => by rw [hext]; exact List.mem_append_left _ hx) hk hk' hcl hr ho ⟨e, h1, rfl⟩⟩
+  · exact hnew e h1
+
+/-- a tree with a single full descriptor (what `create_object` of an array descriptor leaves) is `AllTO` -/
+theorem allTO_singleton {src : Src} {st : DState} {t : RevTree} {r : Rev} {order : List JVal}
+    (hent : ∀ e ∈ t.entries, e.rev = r) (hd : readDesc src st r = .ok (.inl order)) : AllTO src st t := by
+  intro e he
+  rw [hent e he]
+  exact ⟨order, .full hd⟩
+
 /-! ### From `AllTO` to the array invariant of a fresh replica -/
 
 /-- different array trees share no revision (up to collisions of the 28-bit tail) -/
